@@ -72,7 +72,15 @@ func main() {
 		// rounds: a FRESH router per round (first-use effects - lazy initialisation, memoised results, an empty cache -
 		// get one chance per round, not one per shape), all goroutines released together; in even rounds they all start
 		// with the same request kind (the round number picks it), in odd rounds each starts at its own offset
+		// (at least 10 passes over the kinds per goroutine and round: with 8 goroutines every route of a round's router
+		// is requested 80 times, which is beyond small hit-count thresholds)
 		rounds := 30
+		if *iters < 300 {
+			rounds = *iters / 10
+			if rounds < 1 {
+				rounds = 1
+			}
+		}
 		per := *iters / rounds
 		if per < 1 {
 			per = 1
